@@ -131,6 +131,10 @@ class C01(Prop):
             builds.append(("nfa", "add"))
         if kind == "dfa":
             builds += [("dfa", "add"), ("dfa", "ctor")]
+        if kind == "enfa":
+            # the epsilon-free classes either refuse the 'epsilon' spelling (documented exception) or -- if they
+            # let it through -- the automaton they hold must still answer per the property
+            builds += [("nfa", "add"), ("nfa", "ctor")]
         full = scheme in ("int",)
         for cls, via in builds:
             wl = W2
@@ -138,7 +142,8 @@ class C01(Prop):
                 wl = W4 if ctx.notes.get("tier") == "thorough" or self.TIER == "thorough" else W3
             tag = cls + "/" + via
             b = ctx.call(O.build_fa, case, cls, scheme, None, via)
-            if not ctx.returns(b, "C01.build", cls=tag):
+            refusal = (O.lib().InvalidEpsilonTransition,) if kind == "enfa" and cls != "enfa" else ()
+            if not ctx.returns(b, "C01.build", allowed=refusal, cls=tag):
                 continue
             a = b.value
             # all words under one watchdog; word by word only when something went wrong (to name the word)
